@@ -302,22 +302,41 @@ def step_cargo(ctx):
     ok = rc2 == 0 and os.path.exists(IMPL_BIN)
     if not ok:
         ctx.oblig("implementation built from /repo working tree with --cfg quadlet_rs_verif", False, out2[-1200:])
+        # the driver (a child module of the crate) no longer compiles against the source, e.g. because a private function it calls changed its
+        # signature.  That is a broken tie, not yet a failing input: build the PLAIN binary so that the end-to-end oracles can still look for one
+        # (the in-process operations then answer NOHOOK and their comparisons are skipped or fail on their own).
+        env2 = {"CARGO_TARGET_DIR": os.path.join(BUILD, "target")}
+        rc3, out3 = sh("cargo build --offline --quiet", cwd=REPO, env=env2, timeout=1300)
+        if rc3 == 0 and os.path.exists(IMPL_BIN):
+            global HOOK_OK
+            HOOK_OK = False
+            return True
     return ok
 
 
 # ------------------------------------------------------------------ running drivers
+import shutil as _shutil
+PRLIMIT = _shutil.which("prlimit")
 def _run_chunk(args):
     cmd, env, lines = args
     e = dict(os.environ)
     e.update(env)
     cwd = e.pop("VERIF_CWD", None)
-    p = subprocess.run(cmd, input=("\n".join(lines) + "\n").encode(), stdout=subprocess.PIPE, stderr=subprocess.PIPE, env=e, timeout=3000, cwd=cwd)
-    out = p.stdout.decode().split("\n")
+    # a runaway implementation (an endless loop that allocates) must not take the machine down: 6 GiB of address space, 15 CPU minutes
+    # (through prlimit(1), not preexec_fn: the latter makes every spawn a full fork of this process)
+    if cmd and cmd[0] == IMPL_BIN and PRLIMIT:
+        cmd = [PRLIMIT, "--as=%d" % (6 << 30), "--cpu=900"] + list(cmd)
+    try:
+        p = subprocess.run(cmd, input=("\n".join(lines) + "\n").encode(), stdout=subprocess.PIPE, stderr=subprocess.PIPE, env=e, timeout=1200, cwd=cwd)
+        stdout, rc = p.stdout, p.returncode
+    except subprocess.TimeoutExpired as ex:
+        stdout, rc = ex.stdout or b"", -9
+    out = stdout.decode().split("\n")
     if out and out[-1] == "":
         out.pop()
     if len(out) != len(lines):
         # the process died mid-stream (abort/stack overflow): mark the first unanswered case
-        out = out + ["DIED\t%d" % p.returncode] + ["SKIPPED"] * (len(lines) - len(out) - 1)
+        out = out + ["DIED\t%d" % rc] + ["SKIPPED"] * (len(lines) - len(out) - 1)
     return out
 
 
@@ -332,7 +351,12 @@ def run_driver(cmd, env, lines):
     return [x for o in outs for x in o]
 
 
+HOOK_OK = True
+
+
 def run_impl(lines, extra_env=None):
+    if not HOOK_OK:
+        return ["NOHOOK"] * len(lines)
     env = {"QUADLET_VERIF": "1", "PODMAN": "/usr/bin/podman"}
     if extra_env:
         env.update(extra_env)
